@@ -209,6 +209,7 @@ def run(ctx, anchors=None, failed_step_rule=False):
     pops_rw = hist_ops(rewind, "pop_back")
     pushed = {}
     snap_point = {}
+    snap_local = {}
     for h, n in pushes:
         ctx.site()
         arg = n["args"][0] if n["args"] else None
@@ -233,6 +234,8 @@ def run(ctx, anchors=None, failed_step_rule=False):
             srcf = efields(stepper, arg) if arg is not None else []
         pushed[h] = (srcf[0] if srcf else None, n)
         snap_point[h] = point
+        if point is not n and arg is not None and arg.get("k") == "ref":
+            snap_local[h] = arg.get("d")
     ctx.floor("R04.2", len(pushed), 1, "history vectors pushed by the stepper")
     # failing / succeeding edge of the step
     fail_succ = succ_succ = None
@@ -289,14 +292,20 @@ def run(ctx, anchors=None, failed_step_rule=False):
             r = rhs
             while r is not None and r.get("k") == "ctor" and r.get("copy") and r["args"]:
                 r = r["args"][0]
+            while r is not None and r.get("k") == "call" and r.get("callee") in ("std::move", "std::forward") and r["args"]:
+                r = r["args"][0]
             if r is not None and r.get("k") == "mcall" and r.get("n") == "back":
                 hp = efields(stepper, r.get("obj"))
                 lp = efields(stepper, lhs)
                 if hp and lp:
                     fail_restores.setdefault(hp[0][0], []).append((lp[0], n))
+            elif r is not None and r.get("k") == "ref" and r.get("dk") == "local":
+                # restored from the snapshot local that becomes the history entry on success
+                lp = efields(stepper, lhs)
+                for h_, d_ in snap_local.items():
+                    if d_ == r.get("d") and lp:
+                        fail_restores.setdefault(h_, []).append((lp[0], n))
         for h, (src, pn) in sorted(pushed.items()):
-            if not before.get(h):
-                continue      # pushed only after success: nothing was recorded, nothing can be stale ... but the field itself may be
             rs = [(dst, n) for (dst, n) in fail_restores.get(h, []) if dst == src]
             ns = [n for (hh, n) in pops_fail if hh == h]
             ok = bool(rs) and cfg.must_pass_from_block(fail_succ, [n for (d_, n) in rs]) and all(any(cfg.dominates(n, p_) for (d_, n) in rs) for p_ in ns)
